@@ -132,6 +132,8 @@ type X struct {
 	contained map[*Term][]*Term
 	postEnv  *Env
 	noWrap   bool
+	noRetry  map[string]bool
+	stale    []string // contract clauses that could not be evaluated against the current code
 }
 
 // callEvent records the symbolic result of a call to a function that was
@@ -150,6 +152,15 @@ func NewX(w *World, root string, mode *Mode) *X {
 		rangeOf: map[*Term]Value{}, boxed: map[*Term]Value{}, typeByKey: map[string]types.Type{}, isFresh: map[*Term]bool{},
 		cellEscaped: map[int]bool{}, usedContracts: map[string]*Contract{}, unknownCalls: map[string]int{},
 		untracked: map[string]bool{"log": true, "conn": true, "stdout": true}, inlineExternal: map[string]bool{}, unescaped: map[*Term]bool{}, neqMemo: map[[2]int]bool{}, contained: map[*Term][]*Term{}}
+}
+
+func (x *X) noteStale(msg string) {
+	for _, s := range x.stale {
+		if s == msg {
+			return
+		}
+	}
+	x.stale = append(x.stale, msg)
 }
 
 func (x *X) warn(format string, args ...interface{}) {
